@@ -195,26 +195,16 @@ def stateLoop (radixes : List Nat) (explicit : Bool) (params : List P) :
     let v ← svApply conj radixes v u op.loc
     stateLoop radixes explicit params rest (idx + op.numParams) v
 
-/-- `StateVector(input)` without radixes: qubits when the dimension is a power of two,
-qutrits when it is a power of three, RuntimeError otherwise. -/
-def inferRadixes (dim : Nat) : Except Err (List Nat) :=
-  if dim &&& (dim - 1) == 0 then .ok (List.replicate (Nat.log2 dim) 2)
-  else match (List.range (dim + 1)).find? (fun k => 3 ^ k == dim) with
-    | some k => .ok (List.replicate k 3)
-    | none => .error .runtimeError
-
-/-- `Circuit.get_statevector(in_state, params)`.  `new_state = StateVector(in_state)`:
-`stateRadixes = some rs` when `in_state` already is a `StateVector` with radixes `rs`;
-`none` when it is a plain vector, whose radixes are then *inferred from the dimension*
-and not taken from the circuit (see `C06_statevector_witness`).  Every `apply` uses the
-state's radixes. -/
+/-- `Circuit.get_statevector(in_state, params)`.
+`new_state = StateVector(in_state, self.radixes)`: a plain vector (`stateRadixes = none`)
+is interpreted with the circuit's radixes; an input that already is a `StateVector`
+(`stateRadixes = some rs`) keeps its own radixes (copy constructor).  A dimension that
+does not match the radixes is a ValueError.  Every `apply` uses the state's radixes. -/
 def Circ.getStatevector (c : Circ P α) (inState : T α) (stateRadixes : Option (List Nat))
     (params : List P) : Except Err (T α) := do
   if params.length ≠ 0 then
     if params.length ≠ c.numParams then throw .valueError
-  let sr ← (match stateRadixes with
-    | some rs => pure rs
-    | none => inferRadixes inState.data.size : Except Err (List Nat))
+  let sr := stateRadixes.getD c.radixes
   if prod sr ≠ inState.data.size then throw .valueError    -- 'Qudit radixes mismatch with dimension.'
   stateLoop conj sr (params.length ≠ 0) params c.ops 0 ⟨[inState.data.size], inState.data⟩
 
